@@ -7,7 +7,10 @@ from pyvc.api import *
 # space_available_downstream (or a gate predicate) runs, none of its fields changes.
 PT_PROTECT = ['self._env', 'self._env._now', 'self._name', 'self._value', 'self._initial_value', 'self._value_history',
               'self._value_history[]', 'self._downstream', 'self._downstream[]', 'self._upstream', 'self._upstream[]',
-              'self._block_input', 'self._recursion_prevention', 'self._joined_groups', 'self._joined_groups[]']
+              'self._block_input', 'self._recursion_prevention', 'self._joined_groups', 'self._joined_groups[]',
+              # not a field of these classes, but the engine attributes subclass fields to the base class when it
+              # checks frames (the sort key of the candidates reads it on the neighbours)
+              'self._waiting_for_part_since']
 PT_NOTE = ('A4/IC: during a neighbour\'s give_part / space_available_downstream or a gate predicate, no field of a '
            'pass-through device (wiring, input block, group membership, clock) is changed')
 rely('PartFlowController', protect=PT_PROTECT, note=PT_NOTE)
@@ -16,8 +19,12 @@ for c_ in ('GroupInput', 'GroupOutput', 'GroupPath'):
     rely(c_, protect=PT_PROTECT + ['self._group'], note=PT_NOTE)
 
 # --------------------------------------------------------------------------- Part: routing history
+invariant('Part', 'routing_lists_exist',
+          'self._routing_history is not None and alive(self._routing_history) and self._group_pathing is not None and '
+          'alive(self._group_pathing) and self._routing_history is not self._group_pathing and '
+          'self._routing_history is not self._value_history and self._group_pathing is not self._value_history')
+
 contract('Part.add_routing_history', props=['C08'], for_cls=['Part'], args={'device': 'ref:PartFlowController'},
-         requires={'history_exists': 'self._routing_history is not None and alive(self._routing_history)'},
          raises={'TypeError': ('device is None', {'bad_device_changes_nothing': '@frame:'})},
          ensures={'appended_at_the_back':
                       'len(self._routing_history) == old(len(self._routing_history)) + 1 and '
@@ -26,3 +33,101 @@ contract('Part.add_routing_history', props=['C08'], for_cls=['Part'], args={'dev
                       '    for j in range(old(len(self._routing_history))))',
                   'stack_untouched': 'seq(self._group_pathing) == old(seq(self._group_pathing))'},
          modifies=['self._routing_history[]'])
+
+contract('Part.remove_from_routing_history', props=['C08'], for_cls=['Part'], args={'index': 'int'},
+         raises={'IndexError': ('index >= len(self._routing_history) or index < -len(self._routing_history)',
+                                {'bad_index_changes_nothing': '@frame:'})},
+         ensures={'that_entry_deleted_rest_keeps_order':
+                      'len(self._routing_history) == old(len(self._routing_history)) - 1 and '
+                      'all(self._routing_history[j] is '
+                      '    old(self._routing_history[ite(j < ite(index < 0, index + len(self._routing_history), index), j, j + 1)]) '
+                      '    for j in range(len(self._routing_history)))',
+                  'last_entry_deleted_for_minus_one':
+                      'implies(index == -1, all(self._routing_history[j] is old(self._routing_history[j]) '
+                      '                         for j in range(len(self._routing_history))))',
+                  'stack_untouched': 'seq(self._group_pathing) == old(seq(self._group_pathing))'},
+         modifies=['self._routing_history[]'])
+
+# --------------------------------------------------------------------------- PartFlowController: candidate order
+literal('PartFlowController.set_upstream', '[]', 'list[ref:PartFlowController]')
+SORTED_OF = ('len(result) == len({src}) and result is not {src} and '
+             'all(0 <= sorted_perm("", j) and sorted_perm("", j) < len({src}) and '
+             '    sorted_inv("", sorted_perm("", j)) == j and result[j] is {src}[sorted_perm("", j)] '
+             '    for j in range(len(result)))')
+SORTED_ALL = ('all(0 <= sorted_inv("", i) and sorted_inv("", i) < len(result) and sorted_perm("", sorted_inv("", i)) == i '
+              '    for i in range(len({src})))')
+SORTED_ORDER = ('all(implies(wait_since(result[i]) is None, wait_since(result[j]) is None) and '
+                '    implies(wait_since(result[j]) is not None, wait_since(result[i]) <= wait_since(result[j])) and '
+                '    implies(wait_since(result[i]) == wait_since(result[j]), sorted_perm("", i) < sorted_perm("", j)) '
+                '    for i in range(len(result)) for j in range(i + 1, len(result)))')
+contract('PartFlowController.downstream_priority_sorter', props=['C08'], args={'downstream': 'list[ref:PartFlowController]'},
+         result='list[ref:PartFlowController]',
+         requires={'candidates_exist': 'alive(downstream) and all(d is not None and alive(d) for d in downstream)'},
+         ensures={'every_position_holds_a_candidate': SORTED_OF.format(src='downstream'),
+                  'every_candidate_has_a_position': SORTED_ALL.format(src='downstream'),
+                  'longest_idle_first_never_idle_last_ties_keep_configured_order': SORTED_ORDER},
+         modifies=[])
+contract('PartFlowController.get_sorted_downstream_list', props=['C08'], for_cls=['PartFlowController', 'DecisionGate', 'GroupPath'],
+         args={}, result='list[ref:PartFlowController]',
+         ensures={'every_position_holds_a_configured_downstream': SORTED_OF.format(src='self._downstream'),
+                  'every_configured_downstream_has_a_position': SORTED_ALL.format(src='self._downstream'),
+                  'longest_idle_first_never_idle_last_ties_keep_configured_order': SORTED_ORDER},
+         modifies=[])
+
+# --------------------------------------------------------------------------- PartFlowController: hand-over
+# g_k (cursor of the candidate loop) is the position, in the sorted candidate list, of the downstream that took the
+# part when the answer is True; len(candidates) when every candidate refused.
+CANDIDATES = ('len(iterated()) == len(self._downstream) and '
+              'all(0 <= sorted_perm("", j) and sorted_perm("", j) < len(self._downstream) and '
+              '    iterated()[j] is self._downstream[sorted_perm("", j)] for j in range(len(iterated())))')
+REFUSED_SO_FAR = ('trace_len() == at_loop_entry(trace_len()) + g_k and '
+                  'all(trace_kind(at_loop_entry(trace_len()) + j) == fn_id("give_part") and '
+                  '    trace_recv(at_loop_entry(trace_len()) + j) is iterated()[j] and '
+                  '    trace_ref(at_loop_entry(trace_len()) + j, 0) is part and '
+                  '    not trace_resb(at_loop_entry(trace_len()) + j) for j in range(g_k))')
+loop('PartFlowController._give_part_helper', 1, 'for dwn in self.get_sorted_downstream_list()',
+     {'candidates_are_the_configured_downstreams': CANDIDATES, 'all_refused_so_far': REFUSED_SO_FAR},
+     modifies=['$trace'], index='g_k')
+
+OPEN = 'old(operational(self) and part is not None and not self._block_input)'
+
+
+def pass_through_clauses(first, hist):
+    """Postconditions of a pass-through hand-over.  first: trace position of the first offer (spec text);
+    hist: whether the device writes itself into the routing history."""
+    n_offers = 'ite(result, g_k + 1, len(self._downstream))'
+    cl = {
+        'C02,C08/refuses_iff_closed_without_any_call':
+            f'implies(not {OPEN}, not result and trace_len() == old(trace_len()))',
+        'C02,C08/offered_in_candidate_order_to_configured_downstreams_only_first_taker_wins':
+            f'implies({OPEN}, '
+            f'  all(trace_kind({first} + j) == fn_id("give_part") and trace_ref({first} + j, 0) is part and '
+            f'      0 <= sorted_perm("", j) and sorted_perm("", j) < len(self._downstream) and '
+            f'      trace_recv({first} + j) is self._downstream[sorted_perm("", j)] and '
+            f'      trace_resb({first} + j) == (result and j == g_k) for j in range({n_offers})))',
+        'C02/accepted_iff_exactly_one_downstream_took_it':
+            f'implies({OPEN}, result == (g_k < len(self._downstream)) and '
+            f'  implies(result, trace_len() == {first} + g_k + 1 and trace_resb(trace_len() - 1)))',
+    }
+    if hist:
+        cl.update({
+            'C08/history_gets_this_device_before_the_part_is_offered':
+                f'implies({OPEN}, trace_kind(old(trace_len())) == fn_id("add_routing_history") and '
+                '        trace_recv(old(trace_len())) is part and trace_ref(old(trace_len()), 0) is self)',
+            'C08/history_entry_removed_again_when_nobody_took_the_part':
+                f'implies({OPEN} and not result, trace_len() == {first} + len(self._downstream) + 1 and '
+                '  trace_kind(trace_len() - 1) == fn_id("remove_from_routing_history") and '
+                '  trace_recv(trace_len() - 1) is part and trace_real(trace_len() - 1, 0) == -1)',
+        })
+    else:
+        cl.update({
+            'C08/history_untouched_by_this_device':
+                f'implies({OPEN} and not result, trace_len() == {first} + len(self._downstream))',
+        })
+    return cl
+
+
+ghost_after('PartFlowController.give_part', '<entry>', g_k='0')
+contract('PartFlowController.give_part', props=['C08'], for_cls=['PartFlowController'], args={'part': 'ref:Part'},
+         result='bool', requires={'part_alive': 'part is None or alive(part)'},
+         ensures=pass_through_clauses('old(trace_len()) + 1', True), modifies=['$trace'])
